@@ -257,6 +257,17 @@ class PtrVec:                 # std::vector<std::unique_ptr<PyTreeSpec>>: entrie
 # ------------------------------------------------------------------------------------------------
 # well-formedness of the post-order encoding (DESIGN.md 1.4), with ghost functions per vector
 
+# contents of an existing PyTreeSpec object, as functions of the Python object that holds it (treespecs are immutable)
+ext_spec_len = z3.Function('ext_spec_len', Ref, Int)
+ext_spec_nil = z3.Function('ext_spec_none_is_leaf', Ref, Bool)
+ext_spec_ns = z3.Function('ext_spec_namespace', Ref, Str)
+ext_spec_arr = {k: z3.Function(f'ext_spec_{k}', Ref, z3.ArraySort(Int, srt)) for k, srt in NODE_FIELDS.items()}
+
+
+def ext_spec_vec(ref):
+    return NodeVec(ext_spec_len(ref), tuple((k, ext_spec_arr[k](ref)) for k in NODE_FIELDS), 'extspec')
+
+
 class WFView:
     """Ghost vocabulary of one node vector: start(i), cpos(i,k), PL(k)."""
 
